@@ -107,14 +107,32 @@ def vertex_sets(seed, quick):
         g = np.array([[sp * a, sp * b] for a in range(my) for b in range(mx)], dtype=float)
         return np.round(g + rng.uniform(-jit, jit, size=g.shape), 3).tolist()
 
+    def fan(ring, k):
+        """a hub: centre ringed by `ring` points (jittered radius) plus an outer ring -> the centre has `ring` Delaunay neighbours"""
+        pts = [[0.03 * k, -0.02 * k]]
+        for t in range(ring):
+            a = 2 * math.pi * t / ring + 0.1
+            r = 2.5 * (1.0 + 0.03 * math.sin(7.0 * t + k))
+            pts.append([r * math.sin(a), r * math.cos(a)])
+        for t in range(8):
+            a = 2 * math.pi * t / 8 + 0.3
+            pts.append([5.2 * math.sin(a) + 0.05 * t, 5.2 * math.cos(a) - 0.04 * t])
+        return np.round(pts, 3).tolist()
+
     out.append(("lat9", lattice(3, 3, 2.0, 0.35)))
     out.append(("rnd12", rnd(12, 8.0)))
     out.append(("lat16", lattice(4, 4, 2.0, 0.35)))
+    out.append(("fan16", fan(16, 1)))
     if not quick:
+        out.append(("fan13", fan(13, 2)))
+        out.append(("fan20", fan(20, 3)))
         for k in range(6):
             n = int(rng.integers(5, 15))
             out.append((f"rnd{n}_{k}", rnd(n, 8.0)))
         out.append(("lat20", lattice(4, 5, 2.0, 0.4)))
+    for name, v in out:
+        if name.startswith("fan") and max(len(x) for x in graph_of(v)) < 13:
+            raise core.MachineryError(f"vertex set {name} has no hub of degree >= 13")
     return out
 
 
@@ -250,6 +268,22 @@ def sym_raw(H):
     return bool(H.ndim == 2 and H.shape[0] == H.shape[1] and np.array_equal(H, H.T))
 
 
+def cholesky_exists(H):
+    """the observation the statement names: the Cholesky factorization of the returned matrix exists (as numpy computes it for the
+    evidence: lower triangle) with finite positive pivots"""
+    try:
+        L = np.linalg.cholesky(np.asarray(H, dtype=float))
+        d = np.diag(L)
+        return bool(np.all(np.isfinite(L)) and (d.size == 0 or np.min(d) > 0.0))
+    except Exception:
+        return False
+
+
+def min_spacing(v):
+    v = np.asarray(v, dtype=float)
+    return float(np.min(np.sqrt(((v[:, None, :] - v[None, :, :]) ** 2).sum(-1)) + np.eye(len(v)) * 1e9))
+
+
 def perm_abs(A):
     """permanent of |A| (n <= 4): bounds every partial sum of the Laplace expansion TLC evaluates"""
     import itertools
@@ -303,7 +337,7 @@ def exact_record(scheme, mesh, lin, reg, c2q=0, czq=0, unit=QUARTER, need_w=Fals
     r = base_record("exact", scheme, mesh, n)
     r.update({"N": N, "c2q": int(c2q), "czq": int(czq), "W": W, "wlen": int(w.shape[0]) if w.ndim == 1 else -1,
               "rows": shape2(H)[0], "cols": shape2(H)[1], "Hq": Hq, "Hr": Hr, "sym": sym_raw(H),
-              "offlattice": not (ok and okw), "desc": desc or {}})
+              "chol": cholesky_exists(H), "offlattice": not (ok and okw), "desc": desc or {}})
     _guard_minors(r)
     return r
 
@@ -326,7 +360,7 @@ def util_record(scheme, mesh, N0, w_int, desc=None):
     Hq, Hr, ok = alpha_exact(H, 1.0)
     r = base_record("exact", scheme, mesh, n)
     r.update({"N": N, "c2q": 0, "czq": 0, "W": [int(x) for x in w_int], "wlen": n, "rows": shape2(H)[0], "cols": shape2(H)[1],
-              "Hq": Hq, "Hr": Hr, "sym": sym_raw(H), "offlattice": not ok, "desc": desc or {}})
+              "Hq": Hq, "Hr": Hr, "sym": sym_raw(H), "chol": cholesky_exists(H), "offlattice": not ok, "desc": desc or {}})
     _guard_minors(r)
     return r
 
@@ -428,7 +462,7 @@ def synthetic_split_record(sp):
     D, ok = ridge_by_homogeneity(H, H2, 4.0, 8 * n)
     rec.update({"T": T, "rows": rows, "S": 1, "W": [int(x) for x in sp["w"]], "wexact": True, "exact": True, "ST2": T * T,
                 "Hs": Hs.astype(np.int64).tolist() if on else [], "rows_n": shape2(H)[0], "cols_n": shape2(H)[1], "offlattice": not on,
-                "wlen": n, "sym": sym_raw(H), "D": D, "ridge_ok": ok, "k": 3, "desc": {"from": "machine"}})
+                "wlen": n, "sym": sym_raw(H), "chol": cholesky_exists(H), "D": D, "ridge_ok": ok, "k": 3, "desc": {"from": "machine"}})
     return rec
 
 
@@ -511,7 +545,7 @@ def split_record(name, verts, seed, adaptive):
     D, ok = ridge_by_homogeneity(H, H2, f, 8 * n) if finite else ([], False)
     rec.update({"T": T, "rows": rows, "S": S, "W": W, "wexact": wexact, "exact": False, "ST2": int(ST2),
                 "Hs": Hs.astype(np.int64).tolist() if finite else [], "rows_n": shape2(H)[0], "cols_n": shape2(H)[1], "offlattice": not finite,
-                "wlen": int(w.shape[0]) if w.ndim == 1 else -1, "sym": sym_raw(H), "D": D, "ridge_ok": ok, "k": k,
+                "wlen": int(w.shape[0]) if w.ndim == 1 else -1, "sym": sym_raw(H), "chol": cholesky_exists(H), "D": D, "ridge_ok": ok, "k": k,
                 "desc": dict(desc, verts=name)})
     return rec
 
@@ -563,32 +597,44 @@ def fixed_record(seed, verts_family):
     S = int(min(2 ** 15, pow2_floor(math.sqrt(2.0 ** 29 / (2 * maxdeg * wmax * wmax + 1)))))
     finite = bool(H.ndim == 2 and np.all(np.isfinite(H)) and np.all(np.isfinite(w)) and np.max(np.abs(H)) * S * S < 2 ** 31)
     rec.update({"N": N, "S": S, "W": fixed(w, S) if finite else [], "wlen": int(w.shape[0]) if w.ndim == 1 else -1,
-                "Hs": fixed(H, S * S) if finite else [], "rows": shape2(H)[0], "cols": shape2(H)[1], "offlattice": not finite, "sym": sym_raw(H), "desc": desc})
+                "Hs": fixed(H, S * S) if finite else [], "rows": shape2(H)[0], "cols": shape2(H)[1], "offlattice": not finite, "sym": sym_raw(H), "chol": cholesky_exists(H), "desc": desc})
     if adaptive:
         D, ok = ridge_by_homogeneity(H, H2, 16.0, 4 * maxdeg + 1) if finite else ([], False)
         rec.update({"D": D, "ridge_ok": ok, "k": 15})
     return rec
 
 
-def kernel_record(seed, verts_family, small):
+GAUSS_MAX_RATIO = 1.55  # Gaussian kernel: scale <= 1.55 x minimum vertex spacing (see run(): assumptions)
+EXP_MAX_RATIO = 3.0
+
+
+def kernel_record(seed, verts_family, small, wide=None):
+    """wide = [my, mx, scale/spacing ratio, gaussian?]: a large elongated rectangular mesh with unit pixels"""
     import autoarray as aa
 
     rng = np.random.default_rng(seed)
-    if small:
+    gauss = rng.random() < 0.5
+    if wide is not None:
+        my, mx, ratio, gauss = int(wide[0]), int(wide[1]), float(wide[2]), bool(wide[3])
+        n_data = my * mx
+        lin = rect_mapper(my, mx, rect_centres(my, mx) + rng.uniform(-0.4, 0.4, size=(n_data, 2)), None)
+        mesh, desc, dmin, scale = "rect", {"mesh": [my, mx], "wide": True}, 1.0, ratio
+    elif small:
         name, verts = verts_family[int(rng.integers(0, 3))]  # tri3, quad4, tri4c: n <= 4
         lin = delaunay_mapper(verts, points_in_hull(rng, verts, 8), None)
         mesh, desc = "delaunay", {"verts": name}
-        v = np.asarray(verts, dtype=float)
-        dmin = float(np.min(np.sqrt(((v[:, None, :] - v[None, :, :]) ** 2).sum(-1)) + np.eye(len(v)) * 1e9))
-        scale = float(rng.uniform(0.2, 0.5)) * dmin  # well conditioned: scale <= half the vertex spacing
+        dmin = min_spacing(verts)
+        scale = float(rng.uniform(0.2, 0.5)) * dmin  # Sylvester certificate with 32-bit minors: scale <= half the vertex spacing
     else:
         mesh, lin, desc = random_mapper(rng, verts_family)
-        scale = float(rng.uniform(0.2, 0.6))
+        dmin = 1.0 if mesh == "rect" else min_spacing(dict((a, b) for a, b in verts_family)[desc["verts"]])
+        scale = float(rng.uniform(0.2, 1.5)) * dmin
+    # the regime in which the floating-point inverse of the covariance is meaningful (conditioning is outside this technique)
+    scale = min(scale, (GAUSS_MAX_RATIO if gauss else EXP_MAX_RATIO) * dmin)
     n = int(lin.params)
-    gauss = rng.random() < 0.5
     scheme = "gaussian_kernel" if gauss else "exponential_kernel"
     c = float(rng.uniform(0.3, 3.0))
-    desc.update({"coefficient": c, "scale": scale})
+    desc.update({"coefficient": c, "scale": scale, "scale_over_min_spacing": scale / dmin})
     try:
         reg = aa.reg.GaussianKernel(coefficient=c, scale=scale) if gauss else aa.reg.ExponentialKernel(coefficient=c, scale=scale)
         H = np.asarray(reg.regularization_matrix_from(linear_obj=lin), dtype=float)
@@ -601,7 +647,8 @@ def kernel_record(seed, verts_family, small):
     S = pow2_floor(2.0 ** 24 / hmax)
     Sp = 64.0 / hmax
     rec.update({"S": int(S) if S >= 1 else 0, "Hs": fixed(H, S) if finite else [], "rows": shape2(H)[0], "cols": shape2(H)[1], "offlattice": not finite,
-                "wlen": int(w.shape[0]) if w.ndim == 1 else -1, "symraw": sym_raw(H), "Hp": fixed(H, Sp) if finite and n <= 4 else [], "desc": desc})
+                "wlen": int(w.shape[0]) if w.ndim == 1 else -1, "symraw": sym_raw(H), "chol": cholesky_exists(H) if finite else False,
+                "Hp": fixed(H, Sp) if finite and n <= 4 else [], "desc": desc})
     return rec
 
 
@@ -641,6 +688,15 @@ def blocks_record(kinds, seed, scheme_mix=False):
         red = inv.regularization_matrix_reduced
         owns = [lo.regularization_matrix for lo in lobjs]
         params = [int(lo.params) for lo in lobjs]
+        anyreg = any(g for _, g in kinds)
+        # what the evidence needs: the Cholesky factorization of the reduced matrix and the log-determinant term exist
+        rec["chol"] = cholesky_exists(red) if anyreg else True
+        try:
+            ld = inv.log_det_regularization_matrix_term
+            rec["logdet_ok"] = bool(np.isfinite(float(np.real(ld))) and abs(float(np.imag(ld))) == 0.0)
+        except Exception as e:
+            rec["logdet_ok"] = False
+            rec["logdet_err"] = f"{type(e).__name__}: {str(e)[:80]}"
     except Exception as e:
         rec.update({"raised": True, "err": f"{type(e).__name__}: {str(e)[:120]}"})
         return rec
@@ -701,7 +757,7 @@ def records_for_job(job):
     elif j == "split":
         recs = [split_record(job["name"], job["verts"], job["seed"], job["adaptive"])]
     elif j == "kernel":
-        recs = [kernel_record(job["seed"], fam, job["small"])]
+        recs = [kernel_record(job["seed"], fam, job["small"], job.get("wide"))]
     elif j == "blocks":
         recs = [blocks_record([tuple(k) for k in job["kinds"]], job["seed"], scheme_mix=True)]
     else:
@@ -780,7 +836,8 @@ def run(ctx):
     ctx.bounds = {"rectangular_meshes": f"{side[0]}..{side[-1]} x {side[0]}..{side[-1]} (all {len(shapes)})", "delaunay_vertex_sets": {n: len(v) for n, v in family},
                   "coefficients_4c2": c2q, "constant_zeroth_pairs_4c2_4cz2": [list(z) for z in zpairs], "adaptive_exact": "inner/outer in {(1,2),(2,1)} x 4 bright-pixel patterns",
                   "synthetic_split_instances": len(splits), "object_lists": f"all lists of length 1..{max_objs} over {len(kinds)} kinds (mapper 3x3, mapper 3x4, 1- and 2-function lists; with / without regularization)",
-                  "ternary_vectors_up_to_n": 6, "exact_minors_up_to_n": 4}
+                  "ternary_vectors_up_to_n": 6, "exact_minors_up_to_n": 4,
+                  "wide_kernel_meshes_rows_cols_ratio_gaussian": "filled below"}
     # ---- S->C jobs
     jobs = []
     for it in insts:
@@ -806,11 +863,22 @@ def run(ctx):
                 jobs.append({"j": "split", "name": name, "verts": verts, "seed": int(rng.integers(1, 2 ** 31)), "adaptive": adaptive})
     for k in range(nr(100, 2000)):
         jobs.append({"j": "kernel", "seed": int(rng.integers(1, 2 ** 31)), "family": family, "small": k % 2 == 0})
+    # large, elongated rectangular meshes (unit pixels): [rows, columns, scale / spacing, Gaussian?]; extents up to 13 scale lengths
+    wide = [[8, 20, 1.54, True], [7, 20, 1.5, True], [8, 16, 1.55, True], [8, 20, 1.4, True], [8, 20, 0.7, True], [5, 18, 1.0, True], [8, 20, 2.5, False]]
+    if not quick:
+        for _ in range(40):
+            g = bool(rng.random() < 0.7)
+            wide.append([int(rng.integers(3, 9)), int(rng.integers(8, 21)), float(rng.uniform(0.4, GAUSS_MAX_RATIO if g else EXP_MAX_RATIO)), g])
+    ctx.bounds["wide_kernel_meshes_rows_cols_ratio_gaussian"] = wide[:8] + ([f"... {len(wide) - 8} more, rows 3..8, columns 8..20"] if len(wide) > 8 else [])
+    for wd in wide:
+        jobs.append({"j": "kernel", "seed": int(rng.integers(1, 2 ** 31)), "family": family, "small": False, "wide": wd})
     for _ in range(nr(60, 1500)):
         ln = int(rng.integers(1, 5))
         jobs.append({"j": "blocks", "seed": int(rng.integers(1, 2 ** 31)),
                      "kinds": [[int(sorted(KIND_OF_P)[int(rng.integers(0, 4))]), bool(rng.integers(0, 2))] for _ in range(ln)]})
-    groups = [jobs[k: k + 12] for k in range(0, len(jobs), 12)]
+    heavy = [j for j in jobs if j.get("wide")]
+    light = [j for j in jobs if not j.get("wide")]
+    groups = [[j] for j in heavy] + [light[k: k + 12] for k in range(0, len(light), 12)]
     recs = []
     for part in core.pmap(_many, groups):
         recs.extend(part)
@@ -841,6 +909,12 @@ def run(ctx):
     ctx.assumptions = [
         "the neighbour table in every record is the one the linear object reports (C06 decides whether it is the right table)",
         "kernel schemes invert a matrix in floating point: their symmetry is decided at the fixed-point resolution of the record (2^-24 of the largest entry), not bit-for-bit",
+        f"kernel instances are restricted to the regime where the covariance is well conditioned on the unchanged tree: Gaussian scale <= {GAUSS_MAX_RATIO} x minimum "
+        f"vertex spacing, exponential scale <= {EXP_MAX_RATIO} x, at most 160 pixels (beyond it, e.g. Gaussian scale 3 pixels on an 8x20 mesh, the covariance is "
+        "saturated by its 1e-8 ridge, cond ~1e10, and the floating-point inverse is no longer numerically positive definite even on the unchanged tree: "
+        "conditioning is outside this technique, DESIGN.md section 5)",
+        "cholesky-factorization-exists / log-determinant-term-exists are recorded observations (np.linalg.cholesky on the returned matrix, "
+        "inversion.log_det_regularization_matrix_term), validated like `raised`, not recomputed by TLC",
         "ridge of fixed-point schemes observed through H(2*coefficients) - f*H(coefficients) = -(f-1)*1e-8*I, float error of both runs bounded below 0.005 ridge units",
         "alpha splits H = u*Q + 1e-8*R with residual <= 1e-12 and rejects anything else (offlattice clause)",
     ]
